@@ -19,9 +19,11 @@ LEVEL_TEXT = ("Unbounded proof: for every list of id-value pairs (any ids, repea
               "back in order and flags exactly the repeated ids; a version's presence flag is true exactly when a pair with "
               "its id is present; the block parsed for a version is the value of the first pair with its id; for every list "
               "of signers (any digests, certificates, SDK bounds, attributes, signatures, public key, lengths below 2^32) the "
-              "v2 and v3/v3.1 block parsers report exactly what is encoded. The search for the block inside the zip file (end "
-              "of central directory scan, magic, the two size fields) is modelled and compared with the code on every run "
-              "but is not covered by a theorem.")
+              "v2 and v3/v3.1 block parsers report exactly what is encoded; and the search for the block: for every file laid "
+              "out as prefix ++ signing block ++ central directory ++ end-of-central-directory record (any pairs, prefix, "
+              "directory and comment) in which no position after the end record looks like an end record, the block is "
+              "found through the record, the central directory offset, the magic and the two size fields, and its pairs "
+              "are the encoded ones.")
 LEVEL_NOTE = ("Trusted: Coq kernel; coq/Apk/SigBlockModel.v as a rendering of the four parsing functions (BytesIO as 'the bytes "
               "from the position on', short reads returned as they are, every exception one error value); the public getters "
               "get_certificates_der_* / get_public_keys_der_* are observed and checked by the oracle, their bodies (loops over "
